@@ -4,7 +4,7 @@
    A [forest] is a well-formed profile-event stream (CPython's event discipline); [events] flattens it. *)
 From Coq Require Import ZArith NArith List Bool.
 Import ListNotations.
-Require Import UV.C19.Model UV.C19.Proofs UV.C19.SymFile UV.C19.SymFileProofs UV.C19.Lazy UV.C19.LazyProofs.
+Require Import UV.C19.Model UV.C19.Proofs UV.C19.SymFile UV.C19.SymFileProofs UV.C19.Lazy UV.C19.LazyProofs UV.C19.Loader UV.C19.LoaderProofs.
 Local Open Scope Z_scope.
 
 (* Refinement: for every configuration of the current code (filters, libcall mode), every call
@@ -278,3 +278,39 @@ Example C19_os_exit_example :
   lz_out (lz_run lz0 (snd (run (mkcfg (Some [33 :: nm_b]%N) LSingle true) st0 (events_open ex_open)))) = [].
 Proof. exact os_exit_example. Qed.
 Print Assumptions C19_os_exit_example.
+
+(* The loader python/uftrace.py (module UV.C19.Loader): `python -m uftrace` starts with the current
+   directory in front of the base path (PYTHONPATH entries, standard library); the loader replaces
+   that entry by the directory of the script.  The script therefore runs with exactly the module
+   search path of a plain run: every import finds the file a plain run finds, the module next to
+   the script first, whatever the current directory or PYTHONPATH (in any order) offer. *)
+Theorem C19_loader_path_is_plain : forall sd cwd base, loader_path sd cwd base = plain_path sd base.
+Proof. exact loader_is_plain. Qed.
+Print Assumptions C19_loader_path_is_plain.
+
+Theorem C19_loader_same_modules : forall has sd cwd base,
+  find_module has (loader_path sd cwd base) = find_module has (plain_path sd base).
+Proof. exact loader_same_modules. Qed.
+Print Assumptions C19_loader_same_modules.
+
+Theorem C19_loader_sibling_module : forall has sd cwd base, has sd = true ->
+  find_module has (loader_path sd cwd base) = Some sd.
+Proof. exact loader_sibling. Qed.
+Print Assumptions C19_loader_sibling_module.
+
+(* the loader before fix e6ae373 (sys.path.insert(0, dir)) kept the current directory as sys.path[1] *)
+Theorem C19_loader_cwd_legacy_refuted :
+  find_module has_cwd_pp (plain_path d_app [d_lib]) = Some d_lib /\
+  find_module has_cwd_pp (loader_path d_app d_cwd [d_lib]) = Some d_lib /\
+  find_module has_cwd_pp (loader_path_legacy d_app d_cwd [d_lib]) = Some d_cwd.
+Proof. exact loader_cwd_witness. Qed.
+Print Assumptions C19_loader_cwd_legacy_refuted.
+
+(* the variant "insert the script's directory only if it is not listed yet" imports another file *)
+Theorem C19_loader_conditional_insert_refuted :
+  find_module has_helpers (plain_path d_app [d_lib; d_app]) = Some d_app /\
+  find_module has_helpers (loader_path d_app d_cwd [d_lib; d_app]) = Some d_app /\
+  find_module has_helpers (loader_path_cond d_app d_cwd [d_lib; d_app]) = Some d_lib /\
+  hd_error (loader_path_cond d_app d_cwd [d_lib; d_app]) <> Some d_app.
+Proof. exact loader_cond_witness. Qed.
+Print Assumptions C19_loader_conditional_insert_refuted.
